@@ -65,6 +65,14 @@ def C12_feature(case, params):
         # feature must be read
         if not any(t.startswith(params["tag"]) and known(t) for c in cards for t in G.features(c["shape"])):
             return False
-        cleaned = [dict(c, shape=clean(c["shape"])) for c in cards]
+        # a designator that MODE cannot hold is taken out of every card of the file, not only out of the MODE card
+        tags = sorted({t for c in cards for t in G.features(c["shape"]) if removable(t)})
+        cleaned = []
+        for c in cards:
+            sh = c["shape"]
+            for t in tags:
+                if t.startswith("particle-") and t != "particle-comment:option-c":
+                    sh = G.without(sh, t) or sh
+            cleaned.append(dict(c, shape=clean(sh)))
         return C12.oracle_file(G.problem_text(cleaned, None, crlf=case.get("crlf", False)), case.get("version")) is None
     return _sentence_matches(case, params)
